@@ -9,10 +9,9 @@ namespace CimbaModel.Sim
 open CimbaModel CimbaModel.Event CimbaModel.Generated
 open CimbaModel.HashHeap (HTag Item Order HH)
 
-structure Preserved (I : World → Prop) : Prop where
+/-- everything except the clock tick: what happens inside one dispatched event after the clock has been advanced -/
+structure PreservedCore (I : World → Prop) : Prop where
   same : ∀ {w w'}, Same w w' → I w → I w'
-  tick : ∀ {w t ev'}, executeNext w.ev = some (t, ev') → I w →
-    I { w with ev := ev', dispatched := w.dispatched + 1 }
   /-- commands are only ever executed by an existing process -/
   exec : ∀ w p c, p < w.procs.size → I w → I (execCmd w p c).1
   /-- only an existing (running) process is ever resumed, and with the frame it was suspended in: `w` is a state `w0`
@@ -24,6 +23,10 @@ structure Preserved (I : World → Prop) : Prop where
   /-- a process is taken out of its suspended state (resumption, start): `blocked := none`, `held` untouched -/
   clear : ∀ w p (f : Proc → Proc), (∀ x, (f x).held = x.held) → (∀ x, (f x).blocked = none) → (∀ x, (f x).prio = x.prio) →
     I w → I (w.modProc p f)
+
+structure Preserved (I : World → Prop) : Prop extends PreservedCore I where
+  tick : ∀ {w t ev'}, executeNext w.ev = some (t, ev') → I w →
+    I { w with ev := ev', dispatched := w.dispatched + 1 }
 
 variable {I : World → Prop}
 
@@ -44,7 +47,7 @@ theorem valid_of_running {w : World} {p : Pid} (h : (w.proc p).status = .running
   rw [proc_default_of_ge hn] at h
   cases h
 
-theorem Preserved.runScript (hI : Preserved I) : ∀ fuel w p, I w → I (runScript fuel w p) := by
+theorem PreservedCore.runScript (hI : PreservedCore I) : ∀ fuel w p, I w → I (runScript fuel w p) := by
   intro fuel
   induction fuel with
   | zero => intro w p h; exact hI.same (fail_same _ _) h
@@ -70,7 +73,7 @@ theorem Preserved.runScript (hI : Preserved I) : ∀ fuel w p, I w → I (runScr
         rw [heq] at h1
         split <;> exact hI.same (emit_same _ _) h1
 
-theorem Preserved.resumeProc (hI : Preserved I) (w : World) (p : Pid) (sig : Int) (h : I w) : I (resumeProc w p sig) := by
+theorem PreservedCore.resumeProc (hI : PreservedCore I) (w : World) (p : Pid) (sig : Int) (h : I w) : I (resumeProc w p sig) := by
   unfold Sim.resumeProc
   dsimp only
   split
@@ -86,14 +89,14 @@ theorem Preserved.resumeProc (hI : Preserved I) (w : World) (p : Pid) (sig : Int
         exact hI.runScript _ _ _ (hI.same (modProc_same _ _ _ (fun _ => rfl) (fun _ => rfl) (fun _ => rfl)) (hI.same (emit_same _ _) h1))
       all_goals (rename_i w' heq; rw [heq] at h1; exact h1)
 
-theorem Preserved.dispatch (hI : Preserved I) {w w' : World} (h : I w) (hd : dispatch w = some w') : I w' := by
+/-- one dispatched event, given that the invariant holds right after the clock tick -/
+theorem PreservedCore.afterTick (hI : PreservedCore I) {w w' : World} {t : HTag} {ev' : EvQ}
+    (hex : executeNext w.ev = some (t, ev')) (h0 : I { w with ev := ev', dispatched := w.dispatched + 1 })
+    (hd : dispatch w = some w') : I w' := by
   unfold Sim.dispatch at hd
-  split at hd
-  · simp at hd
-  · rename_i t ev' hex
-    simp only [Option.some.injEq] at hd
+  rw [hex] at hd
+  · simp only [Option.some.injEq] at hd
     subst hd
-    have h0 := hI.tick hex h
     generalize hw1 : wakeEventWaiters _ _ sigSuccess = w1
     have h1 : I w1 := by
       rw [← hw1]
@@ -126,6 +129,19 @@ theorem Preserved.dispatch (hI : Preserved I) {w w' : World} (h : I w) (hd : dis
                 · split
                   · exact hI.resumeProc _ _ _ h1
                   · exact h1
+
+theorem Preserved.dispatch (hI : Preserved I) {w w' : World} (h : I w) (hd : dispatch w = some w') : I w' := by
+  cases hex : executeNext w.ev with
+  | none => unfold Sim.dispatch at hd; rw [hex] at hd; cases hd
+  | some r =>
+    obtain ⟨t, ev'⟩ := r
+    exact hI.toPreservedCore.afterTick hex (hI.tick hex h) hd
+
+theorem Preserved.runScript (hI : Preserved I) : ∀ fuel w p, I w → I (runScript fuel w p) :=
+  hI.toPreservedCore.runScript
+
+theorem Preserved.resumeProc (hI : Preserved I) (w : World) (p : Pid) (sig : Int) (h : I w) : I (resumeProc w p sig) :=
+  hI.toPreservedCore.resumeProc w p sig h
 
 theorem Preserved.runAll (hI : Preserved I) : ∀ fuel w, I w → I (runAll fuel w) := by
   intro fuel
